@@ -444,6 +444,9 @@ Definition count_pair_well_typed (tree : mtype) (prefix : list step) (counter co
 Definition cap_well_typed (tree : mtype) (p : list step) : bool :=
   match type_at tree p with Some c => is_collection c | None => false end.
 
+Definition int_cap_well_typed (tree : mtype) (p : list step) : bool :=
+  match type_at tree p with Some TInteger => true | _ => false end.
+
 Definition bytes_cap_well_typed (tree : mtype) (p : list step) : bool :=
   match type_at tree p with Some TBytes => true | _ => false end.
 
